@@ -572,6 +572,30 @@ func runCloneRules(r *Run, clones []cloneFn, rulePrefix string, aliasMode int, s
 		// field mapping and aliasing
 		for _, fn := range withClosures(cf.Fn) {
 			allInstrs(fn, func(in ssa.Instruction) {
+				// an entry of the source put into a map of the copy as it is (c.styles[id] = s)
+				if mu, ok := in.(*ssa.MapUpdate); ok && wantAlias {
+					if isPointerLike(mu.Value.Type()) && a.srcDerived(mu.Value) && !isFreshValue(p, mu.Value) && !a.srcDerived(mu.Map) {
+						bad, why := aliasBad(nil, mu.Value.Type())
+						if aliasMode == aliasMutable {
+							// registry entries (notes, numbering definitions) are built once and never handed
+							// out: sharing them matters only if the library writes the entry's own fields
+							// through a received object
+							bad, why = false, ""
+							if n := namedOf(mu.Value.Type()); n != nil {
+								if stt, ok := n.Underlying().(*types.Struct); ok {
+									for i := 0; i < stt.NumFields(); i++ {
+										if w, ok := oracle.fieldMutable(stt.Field(i)); ok {
+											bad, why = true, w
+										}
+									}
+								}
+							}
+						}
+						r.Check(rulePrefix+"-alias", fmt.Sprintf("%s:map[]%s", fname, typeName(mu.Value.Type())), mu.Pos(), !bad,
+							fmt.Sprintf("%s puts a %s taken from the source into a map of the copy without copying it: %s", fname, mu.Value.Type(), why))
+					}
+					return
+				}
 				st, ok := in.(*ssa.Store)
 				if !ok {
 					return
@@ -624,6 +648,21 @@ func runCloneRules(r *Run, clones []cloneFn, rulePrefix string, aliasMode int, s
 								}
 							case *ssa.Return:
 								intoLocal = true
+							case *ssa.UnOp:
+								// `c := *src; …; return c` (a struct result): the loaded value is returned,
+								// stored into the result or appended to it
+								if x.Op == token.MUL && x.Referrers() != nil {
+									for _, u2 := range *x.Referrers() {
+										switch y := u2.(type) {
+										case *ssa.Return:
+											intoLocal = true
+										case *ssa.Store:
+											if y.Val == ssa.Value(x) && !a.srcDerived(y.Addr) && allocBase(y.Addr) != al {
+												intoLocal = true
+											}
+										}
+									}
+								}
 							}
 						}
 					}
@@ -631,8 +670,9 @@ func runCloneRules(r *Run, clones []cloneFn, rulePrefix string, aliasMode int, s
 						if n := isModStruct(p, st.Val.Type()); n != nil {
 							if _, isPtr := st.Val.Type().Underlying().(*types.Pointer); !isPtr {
 								if ld, ok := st.Val.(*ssa.UnOp); ok && ld.Op == token.MUL && a.srcDerived(ld.X) && !isFreshValue(p, ld.X) {
+									objAl, _ := stripLoads(st.Addr).(*ssa.Alloc)
 									for _, f := range pointerLikeFields(p, n) {
-										if freshStoreToField(p, a, cf.Fn, f) {
+										if freshStoreToFieldOf(p, a, cf.Fn, f, objAl) {
 											continue
 										}
 										owner := "?"
